@@ -2,6 +2,9 @@
   Helper lemmas about TB.Model.Run (RunD).
 -/
 import TB.Spec.ExportSpec
-namespace TB
-
-end TB
+import TB.Lemmas.RunDBase
+import TB.Lemmas.RunDReplay
+import TB.Lemmas.RunDOk
+import TB.Lemmas.RunDSim
+namespace TB.RD
+end TB.RD
